@@ -250,6 +250,15 @@ func judge(ts []Tuple) obs {
 	src, want := program(ts)
 	o := obs{Src: src, Want: want}
 	tr := drive.Transpile(map[string]string{"main.tsh": src}, "main.tsh", drive.Bash)
+	for try := 0; try < 100 && tr.HasErr && strings.Contains(tr.Err, "strings.tsh: no such file"); try++ {
+		// bin/std is being re-created by a concurrent build.sh: an environment
+		// race, not an observation of the code under test.
+		time.Sleep(200 * time.Millisecond)
+		tr = drive.Transpile(map[string]string{"main.tsh": src}, "main.tsh", drive.Bash)
+	}
+	if tr.HasErr && strings.Contains(tr.Err, "strings.tsh: no such file") {
+		harnessError("the std library next to the executable is missing: %s", tr.Err)
+	}
 	if tr.Panic != "" {
 		o.Symptom, o.Detail = "transpiler-panic", firstLine(tr.Panic)
 		return o
